@@ -37,7 +37,7 @@ class WorkspaceGen:
         self.o = dict(
             roots=(1, 3), defs=(2, 9), max_depth=3, p_service=0.15, p_union=0.25, p_delim=0.4, p_family=0.3,
             p_ref=0.45, p_const=0.25, p_doc=0.25, p_pad=0.15, p_dep=0.1, p_port=0.15, p_uavcan=0.1,
-            p_cross_root=0.5, max_fields=5, max_cap=4, big_caps=False, p_split_root=0.0, p_rel=0.5,
+            p_cross_root=0.5, max_fields=5, max_cap=4, big_caps=False, p_split_root=0.0, p_rel=0.5, p_derive=0.0,
         )
         self.o.update(o)
         self.roots: list[dict] = []
@@ -188,6 +188,8 @@ class WorkspaceGen:
             lit = "%d.0 / %d.0" % (num, den) if den != 1 else "%d.0" % num
             return ["c", t, name, lit, [num // _g(num, den), den // _g(num, den)]]
         cands = [int(lo), int(hi), 0 if lo <= 0 else int(lo), int(hi) // 2, min(int(hi), 1), max(int(lo), -1)]
+        if t[1] >= 9:
+            cands += [3, 7, 10, 42, 100]
         if t[0] == "u" and t[1] == 8:
             cands += [rng.randint(32, 126), rng.randint(32, 126), 44, 65]
         v = rng.choice(cands)
@@ -235,8 +237,39 @@ class WorkspaceGen:
                     if rng.random() < o["p_doc"]:
                         c.append(gen_doc(rng))
                     items.insert(rng.randint(0, len(items)), c)
+        self._derive_constants(items, deprecated, ri, pool)
         sec = {"union": union, "items": items, "hdr": gen_doc(rng) if rng.random() < o["p_doc"] else None, "seal": "sealed"}
         return sec
+
+    @staticmethod
+    def _is_base(it: list) -> bool:
+        """A plain integer constant that derived constants may refer to (and whose value a revision may change)."""
+        return it[0] == "c" and it[1][0] in ("u", "i") and it[1][1] >= 9 and isinstance(it[4], list) and it[4][1] == 1 and 0 <= it[4][0] <= 100 and not it[3].startswith("'")
+
+    def _derive_constants(self, items: list, deprecated: bool, ri: int, pool: list) -> None:
+        """Some integer constants become expressions over an earlier constant of the same section (NAME + n) or over a
+        constant of another message definition (ns.Type.M.m.NAME + n): values are then computed, not stored."""
+        rng, o = self.rng, self.o
+        if o.get("p_derive", 0.0) <= 0:
+            return
+        seen = []
+        for it in items:
+            if it[0] != "c":
+                continue
+            if it[1][0] in ("u", "i") and it[1][1] >= 9 and isinstance(it[4], list) and rng.random() < o["p_derive"]:
+                add = rng.randint(0, 20)
+                if seen and rng.random() < 0.7:
+                    base = rng.choice(seen)
+                    it[4] = {"ref": base[2], "add": add}
+                    it[3] = rng.choice(["%s + %d", "%d + %s", "%s * 1 + %d"]) % ((base[2], add) if rng.random() < 2 else (add, base[2])) if False else ("%s + %d" % (base[2], add))
+                else:
+                    cands = [(d, c) for d in pool if len(d["secs"]) == 1 and (deprecated or not d.get("dep")) for c in d["secs"][0]["items"] if self._is_base(c)]
+                    if cands:
+                        d, c = rng.choice(cands)
+                        it[4] = {"xref": [T.def_key(d), c[2]], "add": add}
+                        it[3] = "%s.%d.%d.%s + %d" % (d["name"], d["ver"][0], d["ver"][1], c[2], add)
+            if self._is_base(it):
+                seen.append(it)
 
     def _finish_seal(self, d: dict, template: dict | None) -> None:
         """Decide sealing after the body is known. Same (name, major>=1) => same sealing and extent."""
@@ -275,6 +308,17 @@ class WorkspaceGen:
             dep = dep or bool(template.get("dep"))
         d = {"name": name, "ver": ver, "port": None, "ext": "uavcan" if rng.random() < o["p_uavcan"] else "dsdl", "dep": dep,
              "secs": [self.gen_section(dep, ri) for _ in range(2 if service else 1)]}
+        if service and o.get("p_derive", 0.0) > 0 and rng.random() < 0.5:
+            # the same constant name in the request and in the response with different values, each used by a derived constant
+            # of its own section (identifier scope ends at the service response marker)
+            for si, base in enumerate(rng.sample(range(1, 90), 2)):
+                items = d["secs"][si]["items"]
+                if not any(it[0] in ("f", "c") and it[2].lower() in ("scope_k", "scope_d") for it in items):
+                    items.append(["c", ["u", 16, "s"], "SCOPE_K", str(base), [base, 1]])
+                    if rng.random() < 0.5:
+                        items.append(["f", ["bool"], "scope_f%d" % si]) if not d["secs"][si].get("union") and not any(it[0] == "f" and it[2] == "scope_f%d" % si for it in items) else None
+                    add = rng.randint(1, 9)
+                    items.append(["c", ["u", 16, "s"], "SCOPE_D", "SCOPE_K + %d" % add, {"ref": "SCOPE_K", "add": add}])
         self._finish_seal(d, template)
         if rng.random() < o["p_port"] and template is None and not any(x["name"] == name for x in self.defs.values()):
             kind = "s" if service else "m"
@@ -296,6 +340,25 @@ class WorkspaceGen:
 def _g(a: int, b: int) -> int:
     from math import gcd
     return gcd(a, b) or 1
+
+
+def revise_constants(ws: dict, seed: int):
+    """A revision of the workspace in which every plain base constant (see WorkspaceGen._is_base) gets another value; derived
+    constants follow. Names, types and layouts are unchanged. Returns None if nothing changes."""
+    import copy
+    rng = random.Random(seed ^ 0xC0175)
+    ws2 = copy.deepcopy(ws)
+    changed = False
+    for r in ws2["roots"]:
+        for d in r["defs"]:
+            for s in d["secs"]:
+                for it in s["items"]:
+                    if WorkspaceGen._is_base(it):
+                        new = (it[4][0] + rng.randint(1, 50)) % 101
+                        it[4] = [new, 1]
+                        it[3] = str(new)
+                        changed = True
+    return ws2 if changed else None
 
 
 def gen_workspace(rng: random.Random, **o) -> dict:
